@@ -101,6 +101,78 @@ CHECKS = {
         "Trusted: the R7 model in mc/checks/c19.py.",
         "DESIGN.md section 4 (C19)",
     ),
+    "C08": (
+        E1 + " pairs (isomorphism oracle) + builder wrappers",
+        "B ranges over every distinct store state of the C04 machine up to depth 3 (4) - multi-linked ports, order links, self loops, holes, "
+        "reused indices - and builder fragments; A over 3 hosts x every node as parent. The returned mapping, ops, parents, child order, "
+        "metadata, out-port counts, link multiset, host and B are compared; insert_nested/_cfg/_conditional/_tail_loop from root, nested, "
+        "function-body and holed receiving builders with wires.",
+        "Trusted: dump()/comparison code in mc/checks/c08.py; B states come from the C04 machine.",
+        "DESIGN.md section 4 (C08)",
+    ),
+    "C09": (
+        E4 + " (R8 header layout)",
+        "Packages over ordered selections of 3 modules (one non-ASCII, null-carrying fields) and 3 extensions x 3 formats x compression levels "
+        "x bytes/str; header decoder on all 65536 (format, flags) pairs, truncations 0..9 and all 2040 single-byte magic corruptions.",
+        "Trusted: header layout from hugr-core/src/envelope/header.rs; zstd frame magic. MODULE formats need the native module: reported skipped.",
+        "DESIGN.md section 4 (C09)",
+    ),
+    "C10": (
+        E4 + " (spec files as reference)",
+        "Extensions over ordered selections of 4 type definitions, 6 operation definitions (mono, polymorphic, binary-only, scheme+binary, with "
+        "foreign requirements, row-polymorphic), values, 5 versions (pre-release/build) and requirement sets: serialize/load/serialize, field by "
+        "field, ownership and owner requirement; every std extension file byte-compared, loaded and re-saved; every typed helper vs the spec files.",
+        "Trusted: specification/std_extensions/*.json; R2 substitution for helper signatures.",
+        "DESIGN.md section 4 (C10)",
+    ),
+    "C11": (
+        E3 + " x registry family (reference resolution by membership)",
+        "92 type expressions with opaque leaves nested in sums, function types (also inside sums), polymorphic bodies, type args, sequences and "
+        "args of opaque types x 85 registries (each of 2 extensions absent or holding any subset of its definitions); loaded HUGRs with 1-3 "
+        "opaque ops (owner/empty requirements, unknown extension, missing op); model export before/after; idempotence.",
+        "Trusted: expected_shape() in mc/checks/c11.py. Opaque inputs carry the bound their definition computes.",
+        "DESIGN.md section 4 (C11)",
+    ),
+    "C12": (
+        E2 + " (R6 model-scope walker)",
+        "Every complete module-rooted builder program of 4 module scenarios (nested DFGs, order edges, metadata, constants, calls incl. recursion / "
+        "polymorphic / row-polymorphic callees, function values, conditionals, loops, CFGs with merges and back edges): Hugr.to_model() is walked in "
+        "parallel with the HUGR; region structure, listed ports, link-name partition vs connectivity, symbols, inlined constants, order hints, "
+        "metadata; model dataclass fields vs the getattr() calls of python.rs.",
+        "Trusted: mc/checks/c12.py (R6, from hugr-core export.rs / import.rs); str()/bytes() of model objects need the native module.",
+        "DESIGN.md section 4 (C12)",
+    ),
+    "C13": (
+        E2 + " with exhaustive single-fault injection at every reachable state",
+        "From every builder-program prefix of 8 scenarios, every applicable single inconsistent call of an 11-kind fault menu is executed on a "
+        "fresh replay of the state and must raise the documented error; plus every (width, untracked set, index, method) lookup of the tracked builder.",
+        "Trusted: fault menu + expected-exception table in mc/checks/c13.py; fail-stop only.",
+        "DESIGN.md section 4 (C13)",
+    ),
+    "C15": (
+        E1 + " (lock-step twin builder)",
+        "All call sequences of the tracked builder (track/untrack/add/extend with mixed int and wire arguments, same index twice, freed and "
+        "out-of-range indices, metadata, indexed/tracked outputs) to depth 4 (5) for both track_inputs settings, in lock-step with a plain Dfg driven "
+        "with explicit wires through a reference list[Wire|None]; tracked list and both HUGRs compared after every call.",
+        "Trusted: the reference list and twin in mc/checks/c15.py.",
+        "DESIGN.md section 4 (C15)",
+    ),
+    "C17": (
+        "exhaustive closure of the schema definition graphs (published vs regenerated), compared node by node",
+        "The four schema files are regenerated from the models by the repository's own generator (its real strict/lax/strict/lax sequence in one "
+        "subprocess) and one configuration per fresh process; every definition reachable through $ref from the roots of published and regenerated "
+        "schemas is compared; version strings of the models vs the file names.",
+        "Trusted: pydantic's schema generator as the definition of 'what the models define'; `additionalProperties: true` treated as void.",
+        "DESIGN.md section 4 (C17)",
+    ),
+    "C20": (
+        E2 + " monitor (R9 DOT reader) x configuration product",
+        "Every complete builder program of the plan (thorough: also after every single store mutation) x 7 render configurations: the DOT source is "
+        "parsed and node statements, port cells, cluster nesting, edge statements and value labels are compared with the HUGR's public queries; "
+        "HUGR unchanged; outputs equal across configurations modulo colours and extension prefix.",
+        "Trusted: mc/ref/dot.py; the `dot` binary is never invoked.",
+        "DESIGN.md section 4 (C20)",
+    ),
 }
 
 ALL = [f"C{i:02d}" for i in range(1, 21)]
